@@ -49,7 +49,7 @@ int main(void)
   VF_ASSERT(ok, "C16: the inbound message is reported as processed");
   VF_ASSERT(vf_sess_next_recv(SESS) == r + 1, "C16: a processed inbound message moves the expected receive number by one");
   VF_ASSERT(in_fail ? (e_n == 1 && e_msg[0] == 1 && e_v34[0] == n && vf_sess_next_send(SESS) == n + 1) : (e_n == 0 && vf_sess_next_send(SESS) == n), "C16: a Reject (numbered n) is sent exactly for the message that failed decoding");
-  VF_ASSERT(c_valid && c_snd == vf_sess_next_send(SESS) && c_rcv == vf_sess_next_recv(SESS), "C16: after a processed inbound message the control record equals the session's numbers");
+  VF_ASSERT(c_att_n >= 1 && ctl_matches(vf_sess_next_send(SESS), vf_sess_next_recv(SESS)), "C16: after a processed inbound message the control record equals the session's numbers (a refused control put leaves the last accepted record)");
   VF_REACH();
   return 0;
 }
